@@ -252,18 +252,21 @@ static void sig_tests(TMCG_SecretKey &sec, TMCG_PublicKey &pub, TMCG_SecretKey &
 			    size_t lo[3] = { 0, mdl, mdl + TMCG_PRAB_K0 }, hi[3] = { mdl, mdl + TMCG_PRAB_K0, mn };
 			    static const char *fn[3] = { "w", "r", "gamma" };
 			    for (int fld = 0; fld < 3; fld++) {
-			      bool done = false;
-			      for (int tr = 0; tr < 40 && !done; tr++) {
-			        std::vector<unsigned char> y2 = yy;
-			        size_t pos = tr == 0 ? hi[fld] - 1 : lo[fld] + gen().below(hi[fld] - lo[fld]);
-			        y2[pos] ^= (unsigned char)(1u << gen().below(8));
-			        Z f2, q0, q1, q2, q3;
-			        mpz_import(f2.v, 1, -1, mn, 1, 0, y2.data());
-			        if (!tmcg_mpz_qrmn_p(f2.v, sec.p, sec.q)) continue;
-			        tmcg_mpz_sqrtmn_fast_all(q0.v, q1.v, q2.v, q3.v, f2.v, sec.p, sec.q, sec.m, sec.gcdext_up, sec.gcdext_vq, sec.pa1d4, sec.qa1d4);
-			        std::string s5 = "sig|" + kid + "|" + S(q0.v) + "|";
-			        cnt.mutants++; done = true;
-			        if (do_verify(pub, data, s5)) propfail(std::string("verify-field/") + fn[fld], "signature with an altered padded value accepted (byte " + std::to_string(pos) + "): key=" + tag + " data=" + xb(data) + " sig=" + s5);
+			      // three mutants per field: in its last byte, in its first byte (comparisons of a prefix/suffix only), at a random place
+			      for (int phase = 0; phase < 3; phase++) {
+			        bool done = false;
+			        for (int tr = 0; tr < 40 && !done; tr++) {
+			          std::vector<unsigned char> y2 = yy;
+			          size_t pos = phase == 0 ? hi[fld] - 1 : phase == 1 ? lo[fld] : lo[fld] + gen().below(hi[fld] - lo[fld]);
+			          y2[pos] ^= (unsigned char)(phase < 2 ? tr + 1 : (1u << gen().below(8)));
+			          Z f2, q0, q1, q2, q3;
+			          mpz_import(f2.v, 1, -1, mn, 1, 0, y2.data());
+			          if (!tmcg_mpz_qrmn_p(f2.v, sec.p, sec.q)) continue;
+			          tmcg_mpz_sqrtmn_fast_all(q0.v, q1.v, q2.v, q3.v, f2.v, sec.p, sec.q, sec.m, sec.gcdext_up, sec.gcdext_vq, sec.pa1d4, sec.qa1d4);
+			          std::string s5 = "sig|" + kid + "|" + S(q0.v) + "|";
+			          cnt.mutants++; done = true;
+			          if (do_verify(pub, data, s5)) propfail(std::string("verify-field/") + fn[fld], "signature with an altered padded value accepted (byte " + std::to_string(pos) + "): key=" + tag + " data=" + xb(data) + " sig=" + s5);
+			        }
 			      }
 			    }
 			  }
